@@ -31,9 +31,10 @@ class World:
         for nm in (self.name1, self.name2):
             # device function 130 / class 10 ("Diagnostic"): the indirect lookup key is concrete; the rest of the NAME is free
             self.assume += [z3.Extract(47, 40, nm) == 130, z3.Extract(55, 49, nm) == 10]
-            # numeric NAME fields are not the 'not available' pattern, industry group = 4 (Marine): keeps the path count per claim small
-            self.assume += [z3.Extract(20, 0, nm) != 0x1FFFFF, z3.Extract(34, 32, nm) != 7, z3.Extract(39, 35, nm) != 31,
-                            z3.Extract(59, 56, nm) != 15, z3.Extract(62, 60, nm) == 4]
+            # numeric NAME fields lie inside their database ranges (so: not the 'not available' pattern either), industry group = 4 (Marine): keeps the path count per claim small
+            self.assume += [z3.ULE(z3.Extract(20, 0, nm), 2097148),   # unique number inside its database range (a claim outside it is rejected by the decoder)
+                             z3.ULE(z3.Extract(34, 32, nm), 6), z3.ULE(z3.Extract(39, 35, nm), 29),
+                            z3.ULE(z3.Extract(59, 56, nm), 13), z3.Extract(62, 60, nm) == 4]
 
     def src(self, who):
         return SymInt(z3.ZeroExt(1, self.sa if who == "a" else self.sb), 8)
